@@ -177,7 +177,8 @@ func (c *converter) ProgramEnd() error {
 			`set /A "_i=!_i!+1"`,
 			"goto :_sch_loop",
 			")",
-			c.callFuncString(sliceLenSetHelper, []string{}, "!%1!", "!_i!"),
+			c.callFuncString(sliceLenGetHelper, []string{}, "!%1!"), // Only grow the destination, a shorter source must not cut it.
+			"if !_i! gtr !_len! "+c.callFuncString(sliceLenSetHelper, []string{}, "!%1!", "!_i!"),
 		)
 	}
 
@@ -731,7 +732,7 @@ func (c *converter) Copy(destination string, source string, valueUsed bool, glob
 	c.sliceCopyHelperRequired = true
 	c.callFunc(sliceCopyHelper, []string{}, c.varName(destination, global), source)
 
-	c.callFunc(sliceLenGetHelper, []string{}, c.varEvaluationString(destination, global))
+	c.callFunc(sliceLenGetHelper, []string{}, source) // The copied length is the length of the source.
 	return c.varEvaluationString("_len", true), nil
 }
 
